@@ -394,7 +394,15 @@ impl Ctx {
             let m = std::env::var("VERIF_THOROUGH_MULT").ok().and_then(|v| v.parse::<u32>().ok()).unwrap_or(3).max(1);
             cases.saturating_mul(m)
         } else {
-            cases
+            // Quick tier: properties whose cases are cheap run a multiple of the module's case
+            // count, so that every quick check does a few seconds of work on 16 cores.
+            let m = match self.prop {
+                "C06" | "C14" => 4,
+                "C12" | "C13" | "C16" | "C19" => 3,
+                "C03" | "C05" | "C08" | "C09" | "C11" | "C15" | "C17" => 2,
+                _ => 1,
+            };
+            cases.saturating_mul(m)
         };
         let per = cases.div_ceil(WORKERS as u32).max(1);
         let stop_all = AtomicBool::new(false);
